@@ -65,23 +65,31 @@ def _accessor_model(seq_kinds, g):
     return am
 
 
-def _work(args):
-    w, b, i, K = args
-    g = grammar.load()
+def _sequences(K):
     out = []
     for shape in grammar.SHAPES[K]:
         override = {e.split('@')[0]: (frozenset([e.split('@')[1]]), None) for e in shape if '@' in e}
         for kinds in _expand(shape):
+            out.append((kinds, override))
+    return out
+
+
+def _work(args):
+    w, b, i, K, chunk = args
+    g = grammar.load()
+    out = []
+    for kinds, override in chunk:
             seq = []
             for n, k in enumerate(kinds):
                 if n:
                     seq.append(SP)
                 seq.append(Node('child', k))
-            res = sm.evaluate_sequence(w, b, i, K, seq + ['END'], from_start=True, accessor_model=_accessor_model(kinds, g))
+            res = sm.evaluate_sequence(w, b, i, K, seq + ['END'], from_start=True, accessor_model=_accessor_model(kinds, g), later_loops_empty=True)
             if res is None:
                 out.append((kinds, None))
                 continue
             paths = []
+            seen_paths = set()
             for item in res:
                 if len(item) < 4 or not item[3] or item[3][0] != 'ended':
                     continue
@@ -91,8 +99,12 @@ def _work(args):
                 wk = tokens.Walk(override)
                 wk.run(doc)
                 emitted = sum(1 for a in doc.flat() if a[0] in ('text', 'conv'))
-                paths.append({'loop': item[0][0].rsplit('::', 1)[-1], 'touches': wk.touches, 'unknown': wk.unknown, 'pairs': wk.pairs, 'emitted': emitted,
-                              'assumed': [(a[0].rsplit('::', 2)[-2:], a[3], a[4]) for a in item[2]]})
+                rec = {'loop': item[0][0].rsplit('::', 1)[-1], 'touches': wk.touches[:2], 'unknown': wk.unknown, 'pairs': wk.pairs, 'emitted': emitted,
+                       'assumed': [('::'.join(a[0].rsplit('::', 2)[-2:]), a[3], a[4]) for a in item[2]][:3]}
+                key = repr(rec)
+                if key not in seen_paths:
+                    seen_paths.add(key)
+                    paths.append(rec)
             out.append((kinds, paths))
     return (b.short, K, out)
 
@@ -117,14 +129,18 @@ def table(w):
             continue
         for K in kinds:
             if K in grammar.SHAPES:
-                jobs.append((w, b, i, K))
+                seqs = _sequences(K)
+                for c in range(0, len(seqs), 40):
+                    jobs.append((b.id, i, K, seqs[c:c + 40]))
     import multiprocessing as mp
     global _W
     _W = w
     ctx = mp.get_context('fork')
-    with ctx.Pool(min(12, max(1, len(jobs)))) as pool:
-        res = pool.map(_work_idx, [(j[1].id, j[2], j[3]) for j in jobs])
-    tab = {(fn, K): out for fn, K, out in res}
+    with ctx.Pool(min(14, max(1, len(jobs)))) as pool:
+        res = pool.map(_work_idx, jobs, chunksize=1)
+    tab = {}
+    for fn, K, out in res:
+        tab.setdefault((fn, K), []).extend(out)
     try:
         with open(cache, 'wb') as fh:
             pickle.dump(tab, fh)
@@ -137,12 +153,12 @@ _W = None
 
 
 def _work_idx(a):
-    bid, i, K = a
-    return _work((_W, _W.bodies[bid], i, K))
+    bid, i, K, chunk = a
+    return _work((_W, _W.bodies[bid], i, K, chunk))
 
 
 def rule(w, rule_id):
-    r = RuleResult(rule_id, 'tokens that the lexer would fuse stay separated (flow sites, every child sequence the grammar allows, Space between all elements)', floor=1500)
+    r = RuleResult(rule_id, 'tokens that the lexer would fuse stay separated (flow sites, every child sequence the grammar allows, Space between all elements)', floor=900)
     tab = table(w)
     if len(tab) < 18:
         raise AnchorMissing('only %d flow converters with a known child grammar found (expected >= 18)' % len(tab))
